@@ -278,6 +278,8 @@ theorem NoRmC3b.appendBatch (fsHas : Nat → Bool) (es : List (LogId × Bytes)) 
     unfold Store.appendBatch
     have h1 := NoRmC3b.appendAndApply s fsHas (.append id p)
     split
+    · exact h
+    split
     · rename_i seg' s' e' heq
       rw [heq] at h1
       exact ih _ _ _ _ (h.append h1)
@@ -311,6 +313,8 @@ theorem NoRmC3b.call (s : Store) (fsHas : Nat → Bool) (op : Op) : NoRmC3b (s.c
           · exact .appendAndApply _ _ _
   | purge upto =>
     simp only [Store.call]
+    split
+    · exact .nil
     split
     · exact .nil
     · split
